@@ -578,7 +578,103 @@ def _abstract_arg(text, callee, idx, repl, sid):
     if idx >= len(args):
         raise UnitError('lost anchor: call of %s in %s has %d arguments' % (callee, sid, len(args)))
     a, b = args[idx]
+    if repl.strip() == '@iter_seq':
+        # rule A6: an iterator pipeline over u32 items is replaced by an opaque iterator that carries the
+        # SEQUENCE of its items as ghost state, computed mechanically from the pipeline text
+        try:
+            seq = iter_pipeline_seq(m[a:b])
+        except ValueError as e:
+            raise UnitError('lost anchor: iterator argument of %s in %s is outside the pipeline subset (%s)' % (callee, sid, e))
+        # the sequence is bound to a ghost name in front of the statement that holds the call, so that ghost proofs
+        # of the template can talk about it
+        st = hits[0].start()
+        while st > 0 and m[st - 1] not in ';{}':
+            st -= 1
+        return (text[:st] + '\n/*@A6 iterator pipeline as a sequence@*/ let ghost verif_iter_seq: Seq<u32> = ' + seq + ';\n' + text[st:a]
+                + ' crate::verif_std::VerifU32Iter::of(Ghost(verif_iter_seq))' + text[b:])
     return text[:a] + '\n/*@A2 argument abstracted@*/ ' + repl + text[b:]
+
+
+def iter_pipeline_seq(src):
+    """Sequence of the items of an iterator pipeline, as a Verus spec expression. Subset:
+         E := std::iter::empty() | std::iter::once(X) | [&X, ..] | PLACE.iter() | E.chain(E) | E.map(|p| p.FIELD..)
+       (PLACE / X: paths of identifiers and field accesses). Anything else raises ValueError."""
+    t = re.sub(r'\s+', '', src)
+    pos = [0]
+
+    def peek(lit):
+        return t.startswith(lit, pos[0])
+
+    def eat(lit):
+        if not peek(lit):
+            raise ValueError('expected %r at %r' % (lit, t[pos[0]:pos[0] + 20]))
+        pos[0] += len(lit)
+
+    def path():
+        mo = re.compile(r'&?(?:[A-Za-z_]\w*)(?:\.[A-Za-z_0-9]\w*)*').match(t, pos[0])
+        if not mo:
+            raise ValueError('expected a place at %r' % t[pos[0]:pos[0] + 20])
+        txt = mo.group(0)
+        # do not swallow a trailing method name
+        while True:
+            rest = t[mo.start() + len(txt):]
+            if rest.startswith('('):
+                txt = txt[:txt.rindex('.')]
+            else:
+                break
+        pos[0] = mo.start() + len(txt)
+        return txt.lstrip('&')
+
+    def primary():
+        if peek('std::iter::empty()'):
+            eat('std::iter::empty()')
+            return 'Seq::<u32>::empty()', True
+        if peek('std::iter::once('):
+            eat('std::iter::once(')
+            x = path()
+            eat(')')
+            return 'seq![%s]' % x, True
+        if peek('['):
+            eat('[')
+            xs = []
+            while not peek(']'):
+                xs.append(path())
+                if peek(','):
+                    eat(',')
+            eat(']')
+            return 'seq![%s]' % ', '.join(xs), True
+        x = path()
+        eat('.iter()')
+        return '%s@' % x, True
+
+    def expr():
+        e, _ = primary()
+        while pos[0] < len(t) and peek('.'):
+            if peek('.chain('):
+                eat('.chain(')
+                r = expr()
+                eat(')')
+                e = '(%s + %s)' % (e, r)
+            elif peek('.map(|'):
+                eat('.map(|')
+                mo = re.compile(r'([A-Za-z_]\w*)\|').match(t, pos[0])
+                if not mo:
+                    raise ValueError('closure parameter')
+                pname = mo.group(1)
+                pos[0] = mo.end()
+                mo = re.compile(re.escape(pname) + r'((?:\.[A-Za-z_0-9]\w*)+)\)').match(t, pos[0])
+                if not mo:
+                    raise ValueError('closure body is not a field access')
+                pos[0] = mo.end()
+                e = 'Seq::new((%s).len(), |verif_i: int| (%s)[verif_i]%s)' % (e, e, mo.group(1))
+            else:
+                raise ValueError('adaptor %r' % t[pos[0]:pos[0] + 16])
+        return e
+
+    e = expr()
+    if pos[0] != len(t):
+        raise ValueError('trailing %r' % t[pos[0]:pos[0] + 20])
+    return e
 
 
 def process_item(repo, spec, mutations=None, force_false=False):
